@@ -822,7 +822,7 @@ func TestProp(t *testing.T) {
 		ID: "C08",
 		Rule: "part model: histories of <=80 generated steps over 2-5 keys on a memory.Store of capacity 16-64 bytes: Create (reservations 0..capacity+4, mostly 1/3-2/3 of the capacity), MarkComplete, Open, Delete, Ban/UnbanEviction, Has, Stat, Set/Get/Delete/ListMetadata (one movable, one non-movable kind), scoped calls through Any/Complete/Incomplete views, and Read/ReadAt/Write/WriteAt/Seek/Size on up to 6 handles kept from earlier Create/Open calls; " +
 			"every call's result class (nil, ErrExist, ErrNotExist, ErrOutOfScope, ErrNoSpace, ErrEvicted) and value is compared with a reference model (reserved-size accounting, LRU list of complete unbanned blobs, per-generation byte content with the C12 file model); after every step List per scope, Has, Stat and ListMetadata of every key and Size of every kept handle are compared; a handle whose generation was evicted or deleted must answer ErrEvicted / Size -1 and transfer 0 bytes, also after the key was re-created; at the end every remaining blob's bytes are compared and the LRU order is drained by forced evictions; " +
-			"part stress: 1-4 reader and 0-2 writer goroutines on handles race with a creator that forces evictions, deletes and re-creates the same keys with other bytes; invariant: every read returns exactly the bytes of the generation it first saw or ErrEvicted, and ErrEvicted is permanent; " +
+			"part stress: 1-4 reader and 0-2 writer goroutines on handles race with a creator that forces evictions, deletes and re-creates the same keys with other bytes; blob sizes 4-32 bytes, in 3 of 7 cases multiplied by 16/128/1024 together with the read/write lengths (long copies under the per-blob lock while the eviction runs); invariant: every read returns exactly the bytes of the generation it first saw or ErrEvicted, ErrEvicted is permanent, and an operation started on a handle after the creator saw the Create/Delete that removed its generation return (and Has confirm it) fails with ErrEvicted -- also for handles that were inside an operation while the eviction ran and handles kept idle since; " +
 			"non-trivial (model) = a generated handle operation ran on a stale handle after its key was re-created; non-trivial (stress) = a reader saw its handle turn to ErrEvicted after reading bytes and the key was re-created meanwhile; distinct by case hash",
 		Assumptions: []string{
 			"reference model written from the property statement and the Store documentation (scoped_store.go); LRU order: enlisted on MarkComplete/UnbanEviction, refreshed by Open",
